@@ -550,7 +550,11 @@ class CoreMixin:
         '''A model of the quantifier-free, sequence-operation-free hypotheses and the negated
         goal: a candidate counterexample for the replay, not a verdict.'''
         if mentions_seq_ops(goal):
-            return None
+            # abstract every outermost sequence operation of the goal by a fresh constant of its sort (lengths by
+            # non-negative integers): weaker still, but enough to tell "no counter-model in sight" from "there is one"
+            goal = self._abstract_seq_ops(goal)
+            if goal is None or mentions_seq_ops(goal):
+                return None
         cand = None
         pushed = 0
         try:
@@ -591,6 +595,40 @@ class CoreMixin:
                 pushed -= 1
             self.light.pop()
         return cand
+
+    def _abstract_seq_ops(self, goal):
+        subs = []
+        extra = []
+        seen = {}
+
+        def walk(e):
+            if z3.is_quantifier(e):
+                walk(e.body())
+                return
+            if not z3.is_app(e):
+                return
+            k = e.decl().kind()
+            if k == z3.Z3_OP_SEQ_LENGTH or (k in _SEQ_OPS and not (k == z3.Z3_OP_SEQ_CONCAT and _is_seq_literal(e))):
+                key = e.get_id()
+                if key not in seen:
+                    c = z3.Const(fresh_name('abs_seq'), e.sort())
+                    seen[key] = c
+                    subs.append((e, c))
+                    if k == z3.Z3_OP_SEQ_LENGTH:
+                        extra.append(c >= 0)
+                return
+            for ch in e.children():
+                walk(ch)
+        try:
+            mentions_seq_ops(goal)     # initialises _SEQ_OPS
+            walk(goal)
+            if not subs:
+                return None
+            g2 = z3.substitute(goal, *subs)
+            # the goal is to be refuted: the side conditions restrict the counter-model, so they go in negatively
+            return z3.Implies(z3.And(*extra), g2) if extra else g2
+        except z3.Z3Exception:
+            return None
 
     def second_opinion(self, goal):
         '''Ask cvc5 about an obligation z3 left open (SMT-LIB2 dump).'''
